@@ -129,7 +129,17 @@ fn cli_chains(rep: &mut Report, rng: &mut Rng) {
         }
         std::fs::create_dir_all(&src).unwrap();
         let k = rng.range(1, 5) as usize;
-        let inputs = gen_inputs(rng, k);
+        let mut inputs = gen_inputs(rng, k);
+        // paths whose leading component repeats the prefix dir ("src") or the source dir's own
+        // name ("srcroot"): stripping that component is not idempotent (known findings below)
+        for (nested, tag) in [("src/src/z.c", "nested.prefix"), ("srcroot/srcroot/q.c", "nested.srcdir")] {
+            if rng.chance(1, 5) {
+                let bytes = format!("TN:\nSF:{}\nDA:1,{}\nDA:7,0\nend_of_record\n", nested, rng.range(1, 9)).into_bytes();
+                let parsed = parse_lcov(bytes.clone(), true).expect("plain tracefile");
+                inputs.push(Input { name: format!("in{}.info", inputs.len()), format: "Info", id: fnv_id("Info", &bytes), bytes, parsed });
+                rep.count(&format!("chain.{}", tag));
+            }
+        }
         write_inputs(&dir.join("in"), &inputs);
         let mut opts: Vec<String> = vec!["-t".into(), "lcov".into(), "--branch".into(), "--no-demangle".into()];
         let mut used = vec![];
@@ -198,15 +208,71 @@ fn cli_chains(rep: &mut Report, rng: &mut Rng) {
             v
         };
         if dec[0].is_err() || dec[0] != dec[1] || dec[1] != dec[2] || summ(&reports[0]) != summ(&reports[1]) {
+            // named matchers: the ONLY difference between consecutive rounds is that a record whose
+            // path begins with the relative prefix dir's name (with -p src) or with the source
+            // dir's own last component (with -s …/srcroot, file not on disk) lost that component
+            let finding = restrip_finding(&reports, &used);
             rep.fail(
                 "oracle",
-                None,
+                finding,
                 "re-importing grcov's own lcov report with the same options does not reproduce it".into(),
                 json!({"op": "chain", "opts": opts, "r1": reports[0], "r2": reports[1], "r3": reports[2],
                     "inputs": inputs.iter().map(|i| json!({"name": i.name, "hex": hex(&i.bytes)})).collect::<Vec<_>>()}),
             );
         }
     }
+}
+
+/// `Some(finding)` iff every round-to-round difference is explained by one of the two recorded
+/// re-stripping behaviours and by nothing else (data of the renamed records unchanged).
+fn restrip_finding(reports: &[String], used: &[&str]) -> Option<&'static str> {
+    let maps: Vec<_> = reports.iter().map(|r| decode_lcov_report(r)).collect();
+    if maps.iter().any(|m| m.is_err()) {
+        return None;
+    }
+    let maps: Vec<_> = maps.into_iter().map(|m| m.unwrap()).collect();
+    let mut which: Option<&'static str> = None;
+    for w in maps.windows(2) {
+        let (a, b) = (&w[0], &w[1]);
+        if a == b {
+            continue;
+        }
+        // rename the keys of `a` by one re-strip and require equality with `b`
+        let mut explained = false;
+        for (comp, opt, id) in [("src/", "-p", "C05-relative-prefix-restripped"), ("srcroot/", "-s", "C05-source-dir-name-restripped")] {
+            if !used.contains(&opt) {
+                continue;
+            }
+            // a record that is unchanged in `b` keeps its path (a file that exists on disk is
+            // canonicalised first and is not stripped); every other one must reappear stripped
+            let mut renamed = std::collections::BTreeMap::new();
+            let mut clash = false;
+            let mut stripped = 0;
+            for (k, v) in a.iter() {
+                let nk = if b.get(k) == Some(v) {
+                    k.to_string()
+                } else {
+                    stripped += 1;
+                    k.strip_prefix(comp).unwrap_or(k).to_string()
+                };
+                if renamed.insert(nk, v.clone()).is_some() {
+                    clash = true;
+                }
+            }
+            if !clash && stripped > 0 && &renamed == b {
+                explained = true;
+                if which.is_some() && which != Some(id) {
+                    return None;
+                }
+                which = Some(id);
+                break;
+            }
+        }
+        if !explained {
+            return None;
+        }
+    }
+    which
 }
 
 pub fn replay(rep: &mut Report, case: &serde_json::Value) {
